@@ -287,7 +287,7 @@ class BaseEvolutionOperations(object):
                 column_def += [
                     'REFERENCES',
                     qn(related_model._meta.db_table),
-                    '(%s)' % qn(related_model._meta.pk.name),
+                    '(%s)' % qn(related_model._meta.pk.column),
                     self.get_deferrable_sql(),
                 ]
         else:
@@ -371,6 +371,11 @@ class BaseEvolutionOperations(object):
                 new_attrs=op['new_attrs']))
         elif op_type == 'delete_column':
             sql_result.add(self.delete_column(model, op['field']))
+
+            # The indexes covering the column are dropped along with it.
+            self.database_state.remove_column_indexes(
+                table_name=model._meta.db_table,
+                column=op['field'].column)
         elif op_type == 'change_meta':
             evolve_func = getattr(self, 'change_meta_%s' % op['prop_name'])
             sql_result.add(evolve_func(model, op['old_value'],
@@ -1796,6 +1801,12 @@ class BaseEvolutionOperations(object):
                 cursor.close()
 
             for index_name, info in six.iteritems(constraints):
+                if not (info.get('index') or info.get('unique')):
+                    # This is a primary key, foreign key or check
+                    # constraint. It's not an index, and must not be
+                    # found (or dropped) as one.
+                    continue
+
                 results[index_name] = {
                     'unique': info.get('unique', False),
                     'columns': info.get('columns', []),
